@@ -645,3 +645,82 @@ pub fn oracle_c09(toks: &[&str]) -> String {
     }
     "PASS".into()
 }
+
+// ------------------------------------------------------------------ C10: streaming memory
+/// A source that generates `total` bytes of well-formed lines on the fly (never materialised).
+struct LineGen {
+    line: Vec<u8>,
+    total: usize,
+    produced: usize,
+    read_size: usize,
+}
+impl Read for LineGen {
+    fn read(&mut self, buf: &mut [u8]) -> std::io::Result<usize> {
+        let n = buf.len().min(self.read_size).min(self.total - self.produced);
+        for i in 0..n {
+            buf[i] = self.line[(self.produced + i) % self.line.len()];
+        }
+        self.produced += n;
+        Ok(n)
+    }
+}
+
+/// o_c10 <parser> <lines> <chunk> <read_size> <item_len>: peak live heap while streaming is bounded by
+/// the chunk size and the largest item, not by the number of bytes or items processed.
+pub fn oracle_c10(toks: &[&str]) -> String {
+    let parser = toks[0];
+    let lines: usize = toks[1].parse().unwrap();
+    let chunk: usize = toks[2].parse().unwrap();
+    let read_size: usize = toks[3].parse().unwrap();
+    let item_len: usize = toks[4].parse().unwrap();
+    let line: Vec<u8> = match parser {
+        "cnf" => {
+            let mut s = String::new();
+            let mut i = 1;
+            while s.len() + 4 < item_len { s.push_str(&format!("{} ", if i % 2 == 0 { -(i as i64) } else { i as i64 })); i += 1; }
+            s.push_str("0\n");
+            s.into_bytes()
+        }
+        "btor2" => {
+            let mut s = String::from("7 and 1 2 3 ;");
+            while s.len() + 1 < item_len { s.push('x'); }
+            s.push('\n');
+            s.into_bytes()
+        }
+        other => panic!("o_c10: parser {other}"),
+    };
+    let total = line.len() * lines;
+    let src = LineGen { line: line.clone(), total, produced: 0, read_size };
+    crate::alloc::reset_peak();
+    let base = crate::alloc::current();
+    let mut items = 0usize;
+    let res = catch_unwind(AssertUnwindSafe(|| -> Result<(), String> {
+        let mut r = DeferredReader::from_read(src);
+        r.set_chunk_size(chunk);
+        match parser {
+            "cnf" => {
+                let mut p = flussab_cnf::cnf::Parser::<i64>::new(r.into(), flussab_cnf::cnf::Config::default()).map_err(|e| show_err_cnf(&e))?;
+                while let Some(_c) = p.next_clause().map_err(|e| show_err_cnf(&e))? { items += 1; }
+            }
+            _ => {
+                let mut p = flussab_btor2::Parser::new(r.into(), flussab_btor2::Config::default()).map_err(|e| show_err_btor2(&e))?;
+                while let Some(_l) = p.next_line().map_err(|e| show_err_btor2(&e))? { items += 1; }
+            }
+        }
+        Ok(())
+    }));
+    let peak = crate::alloc::peak().saturating_sub(base);
+    match res {
+        Err(p) => return format!("FAIL panic {}", panic_kind(&*p)),
+        Ok(Err(e)) => return format!("FAIL generated input rejected: {e}"),
+        Ok(Ok(())) => {}
+    }
+    if items != lines {
+        return format!("FAIL {items} items for {lines} lines");
+    }
+    let bound = 8 * chunk + 16 * line.len() + (64 << 10);
+    if peak > bound {
+        return format!("FAIL peak live heap {peak} bytes while streaming {total} bytes (chunk {chunk}, item {} bytes, bound {bound})", line.len());
+    }
+    "PASS".into()
+}
